@@ -34,8 +34,8 @@ func (i *SelectTagsPlanner) Process(ctx *shared.PlannerContext) (sql.ISelect, er
 		Select(sql.NewSimpleCol("key", "key")).
 		From(sql.NewSimpleCol(ctx.TracesAttrsDistTable, "traces_idx")).
 		AndWhere(sql.And(
-			sql.Ge(sql.NewRawObject("date"), sql.NewStringVal(ctx.From.Format("2006-01-02"))),
-			sql.Le(sql.NewRawObject("date"), sql.NewStringVal(ctx.To.Format("2006-01-02"))),
+			sql.Ge(sql.NewRawObject("date"), sql.NewStringVal(ctx.From.UTC().Format("2006-01-02"))),
+			sql.Le(sql.NewRawObject("date"), sql.NewStringVal(ctx.To.UTC().Format("2006-01-02"))),
 			sql.Ge(sql.NewRawObject("traces_idx.timestamp_ns"), sql.NewIntVal(ctx.From.UnixNano())),
 			sql.Lt(sql.NewRawObject("traces_idx.timestamp_ns"), sql.NewIntVal(ctx.To.UnixNano())),
 			sql.NewIn(sql.NewRawObject("span_id"), sql.NewWithRef(withPreSelectTags)),
